@@ -188,6 +188,17 @@ Section C03.
     exact (built_v12_first_auth H ver p eid ts origin e (build_built H sgn _ _ _ _ _ _ _ Hb) Hdl Hn).
   Qed.
 
+  (* ... and after it exactly the explicit auth list, also when that list names the create event
+     itself, at any position (nothing is merged or moved) *)
+  Theorem v12_auth_is_create_then_listed : forall ver p eid ts origin keyid e l,
+    build ver p eid ts origin keyid = BOk e true -> domainless ver = true ->
+    (p_type p <> create_type \/ p_skey p <> Some []) -> ids_of (p_auth p) = Some l ->
+    auth_ids e = Some ((36 :: tl (p_room p)) :: l).
+  Proof.
+    intros ver p eid ts origin keyid e l Hb Hdl Hn Hl.
+    exact (built_v12_auth_exact H ver p eid ts origin e l (build_built H sgn _ _ _ _ _ _ _ Hb) Hdl Hn Hl).
+  Qed.
+
   (* both survive SetUnsigned, SetUnsignedField and Sign (defect F4 of the unrepaired code: the
      methods handed back an eventV2): class, room ID and auth events of the result are the event's *)
   Theorem v12_survives_edits : forall e,
@@ -352,6 +363,7 @@ Print Assumptions cache_is_transparent.
 Print Assumptions event_id_alphabet.
 Print Assumptions v12_create_room_id.
 Print Assumptions v12_first_auth_is_create.
+Print Assumptions v12_auth_is_create_then_listed.
 Print Assumptions v12_survives_edits.
 Print Assumptions hashed_object_fixes_every_field.
 Print Assumptions event_id_injective.
